@@ -71,6 +71,7 @@ func roundTripValue(v px.Value, o *Obs) {
 	}
 	o.Out = hx(text)
 	firstToken(text, o.Aux)
+	parseObs(text, o.Aux)
 	var pv px.Value
 	c, m = guard(func() {
 		pcore.Do(func(ctx px.Context) {
@@ -112,6 +113,7 @@ func roundTripType(t px.Type, o *Obs) {
 		return
 	}
 	o.Out = hx(text)
+	parseObs(text, o.Aux)
 	var t2 px.Type
 	c, m = guard(func() {
 		pcore.Do(func(ctx px.Context) { t2 = ctx.ParseType(text) })
@@ -131,6 +133,29 @@ func roundTripType(t px.Type, o *Obs) {
 	o.Aux["text2"] = hx(text2)
 	if b, err := json.Marshal(types.VerifDecodeType(t)); err == nil {
 		o.Aux["dec"] = string(b)
+	}
+	// oracles of the model: which nested types accept undef (the Struct key convention asks the lattice),
+	// and how the float bounds are rendered
+	var au []*types.VerifTy
+	floats := map[string]string{}
+	guard(func() {
+		t.Accept(func(x px.Type) {
+			if px.IsAssignable(x, types.DefaultUndefType()) {
+				au = append(au, types.VerifDecodeType(x))
+			}
+			if ft, ok := x.(*types.FloatType); ok {
+				for _, f := range []float64{ft.Min(), ft.Max()} {
+					txt := types.WrapValues([]px.Value{types.WrapFloat(f)}).String()
+					floats[strconv.FormatInt(types.VerifFloatKey(f), 10)] = hx(txt[1 : len(txt)-1])
+				}
+			}
+		}, nil)
+	})
+	if b, err := json.Marshal(au); err == nil {
+		o.Aux["au"] = string(b)
+	}
+	if b, err := json.Marshal(floats); err == nil {
+		o.Aux["floats"] = string(b)
 	}
 	if b, err := json.Marshal(types.VerifDecodeType(t2)); err == nil {
 		o.Aux["dec2"] = string(b)
@@ -198,8 +223,9 @@ func handle(r Req) (o Obs) {
 			return
 		}
 		roundTripType(t, &o)
-	case "L": // the lexer alone on a text: first token
+	case "L": // the lexer alone on a text: first token; and the parser on its tokens
 		firstToken(r.In, o.Aux)
+		parseObs(r.In, o.Aux)
 		// value of an integer token as the parser computes it
 		if o.Aux["tokkind"] == "3" {
 			b, _ := hex.DecodeString(o.Aux["toktext"])
